@@ -47,6 +47,10 @@ def gen(ctx, n):
     for ln in range(0, 97):
         for op in SLICE_OPS:
             b = vals.rb(rng, ln) if rng.random() < 0.8 else bytes([rng.choice([0, 0xff])]) * ln
+            if op == 'sig.sig_fromslice':
+                # a Signature is any 64 bytes (S is only range-checked by the verifiers); other lengths are refused
+                ctx.add(op, hx(b), expect=(['ok', b.hex()] if ln == 64 else ['err']), cls='slice:len')
+                continue
             ctx.add(op, hx(b), cls='slice:len')
         # serde with arbitrary payloads of every length
         for ty in ('scalar', 'edwards', 'ristretto', 'signingkey', 'verifyingkey', 'signature', 'xpublic', 'xstatic', 'montgomery',
@@ -91,7 +95,8 @@ def gen(ctx, n):
         ctx.add('sc.hash', hx(vals.rb(rng, rng.randrange(200))), cls='total-constructors')
         ctx.add('rs.hash', hx(vals.rb(rng, rng.randrange(200))), cls='total-constructors')
         ctx.add('ed.nonspec_map', hx(vals.rb(rng, rng.randrange(100))), cls='total-constructors')
-        ctx.add('x.pubkey', b32.hex(), vals.rb(rng, 32).hex(), cls='total-constructors')
+        other = b32 if rng.random() < 0.3 else vals.rb(rng, 32)
+        ctx.add('x.pubkey', b32.hex(), other.hex(), expect=[b32.hex(), b32.hex(), b32.hex(), 'T' if (le(other) & vals.M255) % P == (le(b32) & vals.M255) % P else 'F'], cls='total-constructors')
         ctx.add('misc.debug', rng.choice(['B', 'I', 'T1', 'T4']), 'm' + b32.hex(), vals.rb(rng, 32).hex(), cls='total-constructors')
         ctx.add('misc.sc_random', b64.hex(), cls='total-constructors')
         ctx.add('misc.rs_random', b64.hex(), cls='total-constructors')
